@@ -28,4 +28,20 @@ while read -r name checks; do
   echo "$line" | tee -a selftest/results.tmp
   restore
 done < selftest/mutants/INDEX
-mv selftest/results.tmp selftest/results.txt
+python3 - <<'PY'
+import os
+res="selftest/results.txt"
+d={}
+order=[]
+if os.path.exists(res):
+    for l in open(res):
+        if " | " in l:
+            n=l.split()[0]; d[n]=l.rstrip("\n"); order.append(n)
+for l in open("selftest/results.tmp"):
+    if " " in l:
+        n=l.split()[0]
+        if n not in d: order.append(n)
+        d[n]=l.rstrip("\n")
+open(res,"w").write("# one line per mutant: name, library suite outcome, then per check rc and first violation signature (* = expected to fire)\n"+"\n".join(d[n] for n in order)+"\n")
+PY
+rm -f selftest/results.tmp
